@@ -451,6 +451,22 @@ def literals(guard_list):
             out.append((new, norm(new), pol))
             return
         out.append((test, norm(test), pol))
+        # a condition that was given a name first (`spent = used or x in [None, ERR]` ... `if not
+        # spent:`): the facts of the named expression hold as well
+        if isinstance(test, ast.Name) and depth[0] < 3:
+            fn = getattr(test, '_parent', None)
+            while fn is not None and not isinstance(fn, (ast.FunctionDef, ast.AsyncFunctionDef)):
+                fn = getattr(fn, '_parent', None)
+            if fn is not None and test.id not in {a.arg for a in fn.args.args + fn.args.kwonlyargs}:
+                defs = [a for a in walk_local(fn) if isinstance(a, ast.Assign) and len(a.targets) == 1
+                        and isinstance(a.targets[0], ast.Name) and a.targets[0].id == test.id]
+                stores = sum(1 for x in walk_local(fn) if isinstance(x, ast.Name) and isinstance(x.ctx, ast.Store) and x.id == test.id)
+                if len(defs) == 1 and stores == 1 and defs[0].lineno <= getattr(test, 'lineno', 10 ** 9) \
+                        and isinstance(defs[0].value, (ast.BoolOp, ast.Compare, ast.UnaryOp)):
+                    depth[0] += 1
+                    go(defs[0].value, pol)
+                    depth[0] -= 1
+    depth = [0]
     for t, p in guard_list:
         go(t, p)
     return out
